@@ -1648,7 +1648,7 @@ _VERIF_PROBE_ = []  # filled only when ZEPID_VERIF=1
 def targeting_step(y, a, py_a, py_n, pa1, pa0, splits):
     f = sm.families.family.Binomial()
     h1w = a / pa1
-    h0w = -(1 - a) / pa0
+    h0w = -(1.0 - a) / pa0  # 1.0: an unsigned-integer exposure must not wrap around
     haw = h1w + h0w
     py_o = a * py_a + (1 - a) * py_n
 
